@@ -199,7 +199,7 @@ fn build_binary_op(
         let use_bounds = e.push_bounds_to(&mut wcb);
         let mut values = Vec::new();
         for field in fields {
-            let field_ty = &field.field.ty;
+            let field_ty = &expand_self(&field.field.ty, &this_ty);
             let lhs = with_ref(&member(quote!(self), field), lhs_is_ref);
             let rhs = with_ref(&member(quote!(__rhs), field), rhs_is_ref);
             let lhs_ty = with_ref_ty(field_ty, lhs_is_ref);
@@ -208,6 +208,7 @@ fn build_binary_op(
             field.push_bounds_to(use_bounds, kind, &mut wcb);
         }
         let ctor_args = build_ctor_args(&item.fields, &values);
+        wcb.expand_self(&this_ty);
         let wheres = wcb.build(|ty| {
             let r = ref_operand(ty);
             match (lhs_is_ref, rhs_is_ref) {
@@ -258,13 +259,14 @@ fn build_assign_op(
         let use_bounds = e.push_bounds_to(&mut wcb);
         let mut exprs = Vec::new();
         for field in fields {
-            let field_ty = &field.field.ty;
+            let field_ty = &expand_self(&field.field.ty, &this_ty);
             let lhs = member(quote!(self), field);
             let rhs = with_ref(&member(quote!(__rhs), field), rhs_is_ref);
             let rhs_ty = with_ref_ty(field_ty, rhs_is_ref);
             exprs.push(quote!(<#field_ty as #trait_<#rhs_ty>>::#func_name(&mut #lhs, #rhs)));
             field.push_bounds_to(use_bounds, kind, &mut wcb);
         }
+        wcb.expand_self(&this_ty);
         let wheres = wcb.build(|ty| match rhs_is_ref {
             true => {
                 let r = ref_operand(ty);
@@ -310,13 +312,14 @@ fn build_unary_op(
         let use_bounds = e.push_bounds_to(&mut wcb);
         let mut values = Vec::new();
         for field in fields {
-            let field_ty = &field.field.ty;
+            let field_ty = &expand_self(&field.field.ty, &this_ty);
             let lhs = with_ref(&member(quote!(self), field), lhs_is_ref);
             let lhs_ty = with_ref_ty(field_ty, lhs_is_ref);
             values.push(quote!(<#lhs_ty as #trait_>::#func_name(#lhs)));
             field.push_bounds_to(use_bounds, kind, &mut wcb);
         }
         let ctor_args = build_ctor_args(&item.fields, &values);
+        wcb.expand_self(&this_ty);
         let wheres = wcb.build(|ty| match lhs_is_ref {
             true => {
                 let r = ref_operand(ty);
